@@ -2549,3 +2549,40 @@ mod tests {
         assert!(result.is_ok());
     }
 }
+
+/// Verification hooks (visibility shims only).
+#[cfg(gmsol_verif)]
+pub mod verif {
+    use super::*;
+
+    /// See `compute_builder_fee_amount`.
+    pub fn compute_builder_fee_amount(size_delta_usd: u128, factor: u128, price: &Price<u128>) -> Result<u128> {
+        super::compute_builder_fee_amount(size_delta_usd, factor, price)
+    }
+
+    /// See `clamp_builder_fee_amount`.
+    pub fn clamp_builder_fee_amount(fee_amount: u128, available: u128) -> u128 {
+        super::clamp_builder_fee_amount(fee_amount, available)
+    }
+
+    /// See `charge_builder_fee_on_collateral_increment`.
+    pub fn charge_builder_fee_on_collateral_increment(
+        collateral_increment_amount: u64,
+        size_delta_usd: u128,
+        builder_fee_factor: u128,
+        collateral_price: &Price<u128>,
+    ) -> Result<(u64, u64)> {
+        super::charge_builder_fee_on_collateral_increment(collateral_increment_amount, size_delta_usd, builder_fee_factor, collateral_price)
+    }
+
+    /// See `estimate_builder_fee_for_collateral_withdrawal`.
+    pub fn estimate_builder_fee_for_collateral_withdrawal(
+        collateral_withdrawal_amount: u128,
+        size_delta_usd: u128,
+        builder_fee_factor: u128,
+        collateral_price: &Price<u128>,
+        decrease_position_swap_type: DecreasePositionSwapType,
+    ) -> Result<u128> {
+        super::estimate_builder_fee_for_collateral_withdrawal(collateral_withdrawal_amount, size_delta_usd, builder_fee_factor, collateral_price, decrease_position_swap_type)
+    }
+}
